@@ -13,7 +13,7 @@ PID = "C12"
 LEVEL = "model_checking"
 KINDS = ["unit", "x10", "x0.1", "qmax", "zero", "x1e-4"]
 MOMENTA = [0.0, 0.5, 0.9, 0.99]
-MODELS = ["linear", "conv", "layernorm", "lin_lin", "lin_ln_lin", "lin_relu_lin"]
+MODELS = ["linear", "conv", "layernorm", "lin_lin", "lin_ln_lin", "lin_relu_lin", "lin_idiv_lin"]
 RULE = (
     "every batch history of length 1..3 (quick) / 1..4 (thorough) over 6 batch kinds {unit noise, x10, x0.1, x1e-4, absmax exactly qmax (scale exactly 1.0), all-zero} x momentum {0,0.5,0.9,0.99} x activations "
     "{qint8,e4m3,e5m2} x 6 model chains x streamline on/off x every split of the history into one or two successive Calibration contexts; after every history the input and output scale of every "
@@ -28,8 +28,27 @@ ASSUMPTIONS = [
 ]
 
 
+class _IDiv(nn.Module):
+    """Linear -> in-place scalar division of the activation -> Linear (e.g. an attention scaling)"""
+
+    def __init__(self):
+        super().__init__()
+        self.a = nn.Linear(8, 6)
+        self.b = nn.Linear(6, 4)
+
+    def forward(self, x):
+        h = self.a(x)
+        h /= 4.0
+        return self.b(h)
+
+
 def _build(name, dt):
     torch.manual_seed(0)
+    if name == "lin_idiv_lin":
+        m = _IDiv()
+        for k, p in enumerate(m.parameters()):
+            models._fill(p, k)
+        return m.to(dt).eval()
     seq = {
         "linear": lambda: [nn.Linear(8, 6)],
         "conv": lambda: [nn.Conv2d(2, 3, 2)],
@@ -110,10 +129,14 @@ def _run_history(task, seq, split, out, only=False):
     fields = {"model": name, "activations": aname, "momentum": mom, "streamline": task["streamline"], "dtype": dtname, "contexts": 1 if split is None else 2, "length": len(seq)}
     journal(repr(case))
     groups = [list(range(len(seq)))] if split is None else [list(range(0, split)), list(range(split, len(seq)))]
+    # two successive contexts either use a fresh Calibration object each or re-enter the same object
+    reuse = split is not None and (len(seq) + split) % 2 == 1
+    shared_ctx = Calibration(momentum=mom, streamline=task["streamline"]) if reuse else None
+    fields["reused_context_object"] = reuse
     try:
         bi = 0
         for grp in groups:
-            with torch.no_grad(), Calibration(momentum=mom, streamline=task["streamline"]):
+            with torch.no_grad(), (shared_ctx if reuse else Calibration(momentum=mom, streamline=task["streamline"])):
                 for b in grp:
                     x = _batch(seq[b], name, dt, aname, b)
                     captured.clear()
